@@ -875,6 +875,9 @@ func wgRunOne(b *BatchResult, prop string, seed, run uint64, p wgParams) {
 		m = genWildcardLattice(r)
 		b.Mix["wildcard_lattice_models"]++
 	}
+	if (prop == "C05" || prop == "C04") && r.chance(2) && injectEmptyDirect(r, m) {
+		b.Mix["models_with_empty_direct_assignment_under_operator"]++
+	}
 	wl := &wlWG{Variant: "base", Model: m}
 	c := newWGCtx(wl)
 	b.Workloads++
@@ -1061,6 +1064,30 @@ func wgRunOne(b *BatchResult, prop string, seed, run uint64, p wgParams) {
 }
 
 // wgKnown classifies a mismatch as a listed known finding (or "").
+//
+// D12: a direct assignment without type restrictions directly under an
+// intersection, or as the base of an exclusion, is not represented in the
+// graph at all (it expands to zero edges), so the operator is evaluated over
+// its remaining operands: '[] and b' is accepted with b's types although no
+// type is common to all operands, and '[] but not b' takes b for the base.
+// The matcher is deliberately structural and per model: it applies only when
+// the model under test contains that shape (which the generator injects into
+// at most 2 %% of the C04/C05 workloads and nowhere else), and only to the
+// violation classes the defect can produce.
 func wgKnown(prop string, x mismatch, wl *wlWG, ref *rgraph) string {
+	const id = "D12-empty-direct-assignment-operand"
+	if !knownActive(id, prop) || wl.Model == nil || !emptyDirectUnderOperator(wl.Model) {
+		return ""
+	}
+	switch prop {
+	case "C05":
+		if x.class == "verdict.accepts_unfounded" {
+			return id
+		}
+	case "C04":
+		if x.class == "weights.node" || x.class == "weights.edge" {
+			return id
+		}
+	}
 	return ""
 }
